@@ -33,7 +33,15 @@ GROUPKEYS = {
     "rmsd": ["atoms"], "eigenvector": ["atoms"], "orientation": ["atoms"], "orientationAngle": ["atoms"],
     "orientationProj": ["atoms"], "tilt": ["atoms"], "spinAngle": ["atoms"],
     "eulerPhi": ["atoms"], "eulerPsi": ["atoms"], "eulerTheta": ["atoms"],
+    "gspath": ["atoms"], "gzpath": ["atoms"], "aspath": ["atoms"], "azpath": ["atoms"],
 }
+
+
+def write_xyz(path, positions):
+    with open(path, "w") as f:
+        f.write("%d\nC02 reference frame\n" % len(positions))
+        for p in positions:
+            f.write("X %s %s %s\n" % (g17(p[0]), g17(p[1]), g17(p[2])))
 MODELLED = ["distance", "distanceVec", "distanceDir", "distanceZ", "distanceXY", "distanceInv", "dipoleMagnitude",
             "gyration", "inertia", "inertiaZ", "cartesian", "polarTheta", "polarPhi", "angle", "dipoleAngle",
             "dihedral", "coordNum", "selfCoordNum", "groupCoord", "hBond"]
@@ -83,11 +91,18 @@ def comp_block(c):
             s.append("    tolerance " + g17(p["tol"]))
         if p.get("center"):
             s.append("    group2CenterOnly on")
-    if comp in ("rmsd", "eigenvector", "orientation", "orientationAngle", "orientationProj", "tilt", "spinAngle",
+    if comp == "rmsd" and p.get("reffile"):
+        pass
+    elif comp in ("rmsd", "eigenvector", "orientation", "orientationAngle", "orientationProj", "tilt", "spinAngle",
                 "eulerPhi", "eulerPsi", "eulerTheta"):
         s.append("    refPositions " + " ".join(vec(v) for v in p["ref"]))
     if comp == "eigenvector":
         s.append("    vector " + " ".join(vec(v) for v in p["vector"]))
+    if comp in ("gspath", "gzpath", "aspath", "azpath"):
+        for k, f in enumerate(p["files"]):
+            s.append("    refPositionsFile%d %s" % (k + 1, f))
+    if comp == "rmsd" and p.get("reffile"):
+        s.append("    refPositionsFile " + p["reffile"])
     if comp == "orientation" and p.get("closest") is not None:
         s.append("    closestToQuaternion (%s, %s, %s, %s)" % tuple(g17(x) for x in p["closest"]))
     if comp == "hBond":
